@@ -13,7 +13,7 @@ LATE = 20000    # more polls than any scripted depth-limited search makes: the l
 
 def canon(out):
     """engine transcript -> canonical list of lines (markers dropped, time masked, display collapsed, readyok moved to the front of its search block)"""
-    lines = out.split('\n'); res = []; i = 0; block = None; requeued = None
+    lines = out.split('\n'); res = []; i = 0; block = None; requeued = None; perft_lines = []
     while i < len(lines):
         l = lines[i]
         if l.startswith('@READ go') or (l.startswith('@READ') and False):
@@ -30,6 +30,10 @@ def canon(out):
             z = re.search(r'Zobrist:\s+(0x[0-9a-f]+)', lines[j]).group(1) if j < len(lines) else '?'
             res.append('DISPLAY ' + z); i = j + 2; continue
         if l.strip() == '' and not l.startswith(' '): i += 1; continue
+        if re.match(r'^[a-h][1-8][a-h][1-8]: \d+$', l): perft_lines.append(l); i += 1; continue      # perft's per-move lines (any order)
+        pm = re.match(r'^ Found (\d+) moves for depth (\d+) in \d+ms$', l)
+        if pm:
+            res.append(f'PERFT {pm.group(2)} {pm.group(1)} [' + ','.join(sorted(perft_lines)) + ']'); perft_lines = []; i += 1; continue
         l = re.sub(r' time \d+', ' time T', l)
         if block is not None:
             if l == 'readyok': res.append(l)          # answered in place; placed before the block's info lines
@@ -42,6 +46,14 @@ def canon(out):
         i += 1
     if block: res += block
     return res
+
+def transcripts(out, m):
+    """(engine transcript, model transcript) in the common canonical form"""
+    exited = ' Exited!' in out and '@TIMEOUT' not in out and '@EXIT' not in out
+    el = canon(out); ml = [x for x in m.split(' ;; ') if x != '']
+    if exited and el and el[-1] == ' Exited!': el.append('EXIT')
+    elif '@EXIT' in out or 'PANIC' in el: el = [x for x in el if x != 'PANIC'] + ['PANIC']
+    return el, ml
 
 def liveness(script, lines, exited):
     """the property itself on the canonical transcript"""
@@ -68,7 +80,7 @@ def gen_session(rng):
         if c < 0.25: s.append((0, rng.choice(POS)))
         elif c < 0.35: s.append((0, 'isready'))
         elif c < 0.45: s.append((0, 'ucinewgame'))
-        elif c < 0.5: s.append((0, rng.choice(['eval', 'd', 'foo', 'stop'])))
+        elif c < 0.5: s.append((0, rng.choice(['eval', 'd', 'foo', 'stop', 'perft 1', 'perft 2', 'perft! 2', 'perft simple'])))
         elif c < 0.7:
             s.append((0, f'go depth {rng.choice([1, 2, 3])}'))
             # what arrives while / after it runs
@@ -105,6 +117,11 @@ def run(ctx):
         [(0, 'go depth 3'), (LATE, 'ucinewgame'), (0, 'go depth 3'), (LATE, 'isready')],
         [(0, 'position startpos moves e2e4'), (0, 'go depth 2'), (LATE, 'ucinewgame'), (0, 'go depth 3'), (LATE, 'ucinewgame'), (0, 'go depth 3'), (LATE, 'isready')],
         [(0, 'go depth 2'), (LATE, 'cleartt'), (0, 'position startpos'), (0, 'go depth 3'), (LATE, 'quit')],
+        # the console commands of the main loop: move (plays on from the current position), perft N, perft! N, perft simple, bare perft
+        [(0, 'position startpos'), (0, 'move e2e4 e7e5'), (0, 'd'), (0, 'go depth 2'), (LATE, 'perft 2'), (0, 'perft 1'), (0, 'perft! 2'), (0, 'perft simple'), (0, 'perft'), (0, 'd'), (0, 'isready')],
+        [(0, 'move g1f3'), (0, 'move g8f6 f3g1'), (0, 'd'), (0, 'perft 3'), (0, 'go depth 1'), (LATE, 'move f6g8'), (0, 'go depth 2'), (LATE, 'd')],
+        [(0, 'position fen r3k2r/p1ppqpb1/bn2pnp1/3PN3/1p2P3/2N2Q1p/PPPBBPPP/R3K2R w KQkq - 0 1'), (0, 'perft 2'), (0, 'move e1g1'), (0, 'perft 2'), (0, 'd'), (0, 'eval')],
+        [(0, 'position fen 8/2p5/3p4/KP5r/1R3p1k/8/4P1P1/8 w - - 0 10 moves e2e4'), (0, 'move h4g5'), (0, 'd'), (0, 'perft! 3'), (0, 'go depth 2')],
     ]
     n = 60 if ctx.tier == 'quick' else 3000
     for _ in range(n): sessions.append(gen_session(rng))
@@ -123,10 +140,7 @@ def run(ctx):
             sig = 'C13:' + re.sub(r'\(.*', '', p)
             if sig not in bad: bad[sig] = (p, s, out)
         if m is not None:
-            ml = [x for x in m.split(' ;; ') if x != '']
-            el = list(c)
-            if exited and el and el[-1] == ' Exited!': el.append('EXIT')
-            elif '@EXIT' in out or 'PANIC' in el: el = [x for x in el if x != 'PANIC'] + ['PANIC']
+            el, ml = transcripts(out, m)
             compared += 1
             if el != ml: ties.append((s, el, ml))
     ctx.cov['evaluations'] = len(sessions); ctx.cov['distinct_nontrivial'] = len(set(json.dumps(s) for s in sessions if any(l.startswith('go') for d, l in s)))
